@@ -207,7 +207,7 @@ fmt_as_uptime(time_t *ut, char *buf, size_t buf_size) {
 	if (0 > rc) /* Error. */
 		return (0);
 	if (buf_size <= (size_t)rc) /* Truncated. */
-		return ((buf_size - 1));
+		return ((0 != buf_size) ? (buf_size - 1) : 0);
 	return ((size_t)rc);
 }
 
